@@ -215,6 +215,7 @@ func checkC03(c *Ctx) {
 		"how an entry is classified on a real clock, nor FailedUpdateTTL durations."
 	r.Rule("R03.1", "every lone-call path's outcome is allowed by the documented table in every input cell consistent with the path's facts", 2)
 	r.Rule("R03.2", "every documented cell is reachable (has at least one feasible path)", 2)
+	r.Rule("R03.4", "a cached failure is what the table's 'failure cached' input means: every build failure is cached, for FailedUpdateTTL (obligations of C05 R05.3/R05.6)", 6)
 	r.Rule("R03.3", "entry state as seen by the frontend: the in-module backends classify fresh / absent / expired (with the value) by E vs now", 3)
 	r.NotDecided = []string{"classification of an entry on a real clock", "backend-error cells (property is silent; C02 applies)", "concurrent calls (C01/C02/C05)"}
 	for _, sib := range siblings {
@@ -232,6 +233,18 @@ func checkC03(c *Ctx) {
 			c.c07Read(b)
 		}
 	}, func(o *coreObl) (string, bool) { return "R03.3", o.Rule == "R07.2" })
+	// R03.4: "whether a failure is cached for the key" — the failure cache holds a build failure for FailedUpdateTTL: written under a
+	// private default-TTL cell (not the caller's TTL), the cell being what WithTTL(ctx, DefaultTTL, false) installs, with the
+	// configured/default FailedUpdateTTL as the cache's TimeToLive
+	c.borrow("C05", func() {
+		for _, sib := range siblings {
+			if fo := c.failover(sib); fo.Err == nil {
+				c.c05Sibling(fo)
+			}
+			c.c05Constructor(sib)
+		}
+		c.borrow("C06", func() { c.c06WithTTL() }, func(o *coreObl) (string, bool) { return "R05.6", o.Rule == "R06.3" })
+	}, func(o *coreObl) (string, bool) { return "R03.4", o.Rule == "R05.6" || o.Rule == "R05.3" })
 }
 
 func (c *Ctx) c03Sibling(fo *FO) {
